@@ -232,7 +232,11 @@ func writeMessageFieldUnmarshaller(name string, typ FieldType, w *iohelp.ErrorWr
 		writeLineWithTabs(w, "for i := uint32(0); i < "+lnName+" && r.Err == nil; i++ {", depth, name)
 		ln := getLineWithTabs(settings.typeUnmarshallers[typ.Map.Key], depth+1, "&"+depthName("k", depth))
 		w.SafeWrite([]byte(strings.Replace(ln, "=", ":=", 1)))
-		writeMessageFieldUnmarshaller("("+name+")["+depthName("k", depth)+"]", typ.Map.Value, w, settings, depth+1)
+		// decoded into a variable of its own and stored when complete (see writeFieldReadByter)
+		vName := depthName("mv", depth)
+		writeLineWithTabs(w, "var "+vName+" "+typ.Map.Value.goString(settings), depth+1)
+		writeMessageFieldUnmarshaller("&"+vName, typ.Map.Value, w, settings, depth+1)
+		writeLineWithTabs(w, "(%RECV)["+depthName("k", depth)+"] = "+vName, depth+1, name)
 		writeLineWithTabs(w, "}", depth)
 	} else {
 		simpleTyp := typ.Simple
